@@ -85,14 +85,16 @@ theorem cardCases_mem (o : VOpts) (E : List DNode) (K : EKind) : ∀ (cs : List 
 /-! ## schema sanity: what the schema compiler guarantees -/
 
 /-- `min-elements` ≤ `max-elements`, below 2³² -/
-def mmSaneB (k : STree) : Bool := decide ((k.info.max = 0 ∨ k.info.min ≤ k.info.max) ∧ k.info.min ≤ uint32Max)
+def mmSaneB (k : STree) : Bool :=
+  decide ((k.info.max = 0 ∨ k.info.min ≤ k.info.max) ∧ k.info.min ≤ uint32Max ∧ k.info.max ≤ uint32Max)
 
-/-- a non-choice schema node: a mandatory leaf has no default (RFC 7950 §7.6.4), a leaf-list with defaults has no `min-elements` /
-`max-elements`, a container is not "mandatory" itself, a case is no data node -/
+/-- a non-choice schema node: a mandatory leaf has no default (RFC 7950 §7.6.4), a leaf-list with defaults has no `min-elements`
+and not more defaults than `max-elements`, a container is not "mandatory" itself, a case is no data node -/
 def saneData (k : STree) : Bool :=
   match k.info.kind with
   | .leaf => !(k.info.mandatory && !k.info.dflts.isEmpty)
-  | .leaflist => (k.info.dflts.isEmpty || (k.info.min == 0 && k.info.max == 0)) && mmSaneB k
+  | .leaflist =>
+    (k.info.dflts.isEmpty || (k.info.min == 0 && (k.info.max == 0 || decide (k.info.dflts.length ≤ k.info.max)))) && mmSaneB k
   | .list => mmSaneB k
   | .container => !k.info.mandatory
   | .choice => true
@@ -196,20 +198,31 @@ theorem instsOf_isEmpty_iff {L : List DNode} {sid : Nat} : (instsOf L sid).isEmp
   rw [Bool.eq_iff_iff]
   simp only [List.isEmpty_iff, List.filter_eq_nil_iff, Bool.not_eq_true', List.any_eq_false]
 
+/-- how many implicit instances a schema node gets at most: one container / leaf, the defaults of a leaf-list -/
+def dfltBound (S : Schema) (sid : Nat) : Nat :=
+  match S.get? sid with
+  | some n => max 1 n.dflts.length
+  | none => 1
+
+theorem dfltBound_of_get {S : Schema} {sid : Nat} {n : SNode} (h : S.get? sid = some n) : dfltBound S sid = max 1 n.dflts.length := by
+  unfold dfltBound; rw [h]
+
 /-- the facts about a level `L` (as `lyd_validate_final_r` sees it) and its explicit part `E` that the node lemmas use -/
-structure LvCnt (E L : List DNode) : Prop where
+structure LvCnt (S : Schema) (E L : List DNode) : Prop where
   cnt : ∀ sid, hasInst E sid = true → (instsOf L sid).length = (instsOf E sid).length
   /-- the explicit sibling list is shorter than 2³² (the C counts instances in a `uint32_t`) -/
   len : E.length ≤ uint32Max
+  /-- a schema node without explicit instance has at most its implicit instances -/
+  dcnt : ∀ sid, hasInst E sid = false → (instsOf L sid).length ≤ dfltBound S sid
 
-theorem LvCnt.len_eq {E L : List DNode} (h : LvCnt E L) {sid : Nat} (hh : hasInst L sid = hasInst E sid) :
+theorem LvCnt.len_eq {S : Schema} {E L : List DNode} (h : LvCnt S E L) {sid : Nat} (hh : hasInst L sid = hasInst E sid) :
     (instsOf L sid).length = (instsOf E sid).length := by
   by_cases he : hasInst E sid = true
   · exact h.cnt sid he
   · have he' : hasInst E sid = false := by simpa using he
     rw [instsOf_len_zero he', instsOf_len_zero (hh.trans he')]
 
-theorem LvCnt.insts_le {E L : List DNode} (h : LvCnt E L) {sid : Nat} (hh : hasInst L sid = hasInst E sid) :
+theorem LvCnt.insts_le {S : Schema} {E L : List DNode} (h : LvCnt S E L) {sid : Nat} (hh : hasInst L sid = hasInst E sid) :
     (instsOf L sid).length ≤ uint32Max := by
   rw [h.len_eq hh]
   exact Nat.le_trans (List.length_filter_le _ _) h.len
@@ -220,7 +233,27 @@ theorem uniqueOut_nil (X : SchemaX) (o : VOpts) (cx : Cx) (sibs : List DNode) (k
   simp [hu]
 
 theorem mmSaneB_spec {k : STree} (h : mmSaneB k = true) : (k.info.max = 0 ∨ k.info.min ≤ k.info.max) ∧ k.info.min ≤ uint32Max := by
-  unfold mmSaneB at h; simpa using h
+  unfold mmSaneB at h
+  simp only [decide_eq_true_eq] at h
+  exact ⟨h.1, h.2.1⟩
+
+theorem mmSaneB_max {k : STree} (h : mmSaneB k = true) : k.info.max ≤ uint32Max := by
+  unfold mmSaneB at h
+  simp only [decide_eq_true_eq] at h
+  exact h.2.2
+
+/-- no `min-elements`, not more instances than `max-elements`: `lyd_validate_minmax` logs nothing -/
+theorem minmaxOut_nil_of_le (S : Schema) (o : VOpts) (cx : Cx) (L : List DNode) (k : STree) (hmin : k.info.min = 0)
+    (h : k.info.max = 0 ∨ (instsOf L k.sid).length ≤ k.info.max) (hmax : k.info.max ≤ uint32Max) :
+    (minmaxOut S o cx L k).errs = [] := by
+  by_cases h0 : k.info.max = 0
+  · unfold minmaxOut
+    simp [hmin, h0]
+  · rw [List.eq_nil_iff_forall_not_mem]
+    intro e he
+    have hl : (instsOf L k.sid).length ≤ k.info.max := h.resolve_left h0
+    have := minmaxOut_mem S o cx L k (Or.inr (by omega)) (by omega) (Nat.le_trans hl hmax) e he
+    omega
 
 theorem Out.err_errs (k : EKind) (p : Bytes) : (Out.err k p).errs = [{ kind := k, path := p }] := rfl
 
@@ -238,13 +271,13 @@ theorem uniqueOut_kind (X : SchemaX) (o : VOpts) (cx : Cx) (sibs : List DNode) (
     · simp at he
 
 section node
-variable (X : SchemaX) (o : VOpts) (cx : Cx) (hop : o.operational = false) {E L : List DNode} (hc : LvCnt E L)
+variable (X : SchemaX) (o : VOpts) (cx : Cx) (hop : o.operational = false) {E L : List DNode} (hc : LvCnt X.base E L)
 include hop hc
 
 omit hop in
 /-- soundness: an error of the node's checks names a cardinality constraint the explicit data violate, or it is an error of
 `lyd_validate_unique` on a list that is not state-guarded -/
-theorem node_sound (k : STree) (hk : k.info.kind ≠ .choice) (hs : saneData k = true)
+theorem node_sound (k : STree) (hk : k.info.kind ≠ .choice) (hs : saneData k = true) (hget : X.base.get? k.sid = some k.info)
     (hH : hasInst L k.sid = (hasInst E k.sid || wantsImplicit o k)) :
     ∀ e ∈ (nodeOut X o cx L k).errs, e.kind ∈ cardNode o E k ∨
       (e.kind = .noUniq ∧ k.info.kind = .list ∧ (o.noState && !k.info.config) = false ∧ (uniqueOut X o cx L k).errs ≠ []) := by
@@ -288,18 +321,32 @@ theorem node_sound (k : STree) (hk : k.info.kind ≠ .choice) (hs : saneData k =
       | leaflist =>
         simp only [hkind, Bool.and_eq_true, Bool.or_eq_true, beq_iff_eq] at he hs hH
         have hmm := mmSaneB_spec hs.2
-        simp only [STree.info] at hmm
-        rcases hs.1 with hd | hd
-        · have hHH : hasInst L s = hasInst E s := by rw [hH]; simp [hd]
+        have hmx := mmSaneB_max hs.2
+        simp only [STree.info] at hmm hmx
+        by_cases hcase : hasInst E s = true ∨ i.dflts.isEmpty = true
+        · have hHH : hasInst L s = hasInst E s := by
+            rw [hH]; rcases hcase with h | h <;> simp [h]
           have hmo := minmaxOut_mem X.base o cx L (.mk s i ks) hmm.1 hmm.2 (hc.insts_le hHH) e he
           simp only [STree.info, STree.sid] at hmo
           rw [hc.len_eq hHH] at hmo
           rcases hmo with ⟨h1, h2⟩ | ⟨h1, h2, h3⟩
           · left; rw [h1]; simp [h2]
           · left; rw [h1]; simp [h2, h3]
-        · exfalso
-          unfold minmaxOut at he
-          simp [STree.info, hd.1, hd.2] at he
+        · -- only the implicit instances: not more than `max-elements`
+          exfalso
+          simp only [not_or, Bool.not_eq_true] at hcase
+          have hd := hs.1.resolve_left (by simp [hcase.2])
+          have hb := hc.dcnt s hcase.1
+          rw [dfltBound_of_get (show X.base.get? s = some i from hget)] at hb
+          have hle : i.max = 0 ∨ (instsOf L s).length ≤ i.max := by
+            by_cases h0 : i.max = 0
+            · exact Or.inl h0
+            · right
+              have := of_decide_eq_true (hd.2.resolve_left h0)
+              omega
+          have hnil := minmaxOut_nil_of_le X.base o cx L (.mk s i ks) hd.1 hle hmx
+          rw [hnil] at he
+          cases he
       | list =>
         simp only [hkind] at he hs hH
         rw [Out.append_errs, List.mem_append] at he
